@@ -92,7 +92,7 @@ char const* const kConv[] = {"%a", "%A", "%b", "%B", "%C", "%d", "%D", "%e", "%F
 // the time-of-day conversions get extra weight: they are what the cache rewrites
 char const* const kTimeConv[] = {"%H", "%M", "%S", "%I", "%k", "%l", "%r", "%R", "%T", "%p", "%P", "%Z", "%z"};
 // F6 class: time-bearing composite / alternative conversions that the formatter treats as constant text
-char const* const kComposite[] = {"%c", "%Ec", "%EX", "%OH", "%OI", "%OM", "%OS"};
+char const* const kComposite[] = {"%c", "%Ec", "%OH", "%OI", "%OM", "%OS"};
 // literals that can follow anything (do not start with a letter that could extend a preceding "%%")
 char const* const kLit[] = {" ", "-", ":", "/", ".", ",", "[", "]", "_", "|", " - ", "T", "Z", "at ", "UTC", "h", "m",
                             "s", "Hello", "%%", "%% ", "100%% ", "0", "12", "#"};
@@ -221,7 +221,7 @@ void run_case(Choices& c, Report& r)
       }
       pat = std::string{"%H:%M:%S."} + fr[a] + " " + fr[b];
     }
-    else if (kind == 1) pat = std::string{"%Y "} + "%X";
+    else if (kind == 1) pat = std::string{"%Y "} + (c.pick(2) == 1 ? "%EX" : "%X");
     else pat = std::string{fr[c.pick(3)]} + "%d" + fr[c.pick(3)] + "%X";
     r.line("invalid pattern \"" + pat + "\" must throw");
     r.label("invalid_pattern");
@@ -268,7 +268,7 @@ void run_case(Choices& c, Report& r)
     if (prev_pct && starts_with_any(t, "HMSIklsQrRTXcEO")) *cur += " ";
     if (t[0] == '%' && t != "%%" && t.rfind("%% ", 0) != 0 && t.rfind("100", 0) != 0)
     {
-      if (std::strchr("HMSIklsrRTpPZzc", t.back()) || t == "%EX") has_time = true;
+      if (std::strchr("HMSIklsrRTpPZzc", t.back())) has_time = true;
     }
     *cur += t;
     prev_pct = t.size() >= 2 && t.compare(t.size() - 2, 2, "%%") == 0;
@@ -408,7 +408,7 @@ bool probe_known_class(std::string const& cls, std::string& what)
   if (cls == "tsfmt.composite_time_conversion")
   {
     set_tz("UTC");
-    char const* pats[] = {"%c", "%Ec", "%EX", "%OH:%OM:%OS"};
+    char const* pats[] = {"%c", "%Ec", "%OH:%OM:%OS"};
     for (auto p : pats)
     {
       quill::detail::TimestampFormatter tf{p, quill::Timezone::GmtTime};
